@@ -491,6 +491,8 @@ func (s *attrStats) walk(a parser2.AST, depth int, inFunc, inRec, inArgBind, inL
 
 // ---- cases ------------------------------------------------------------------------------------
 
+var c16MethodNamedRe = regexp.MustCompile(`§(get|list|put|accept|replace|combine)§`)
+
 type c16Case struct {
 	marked   string
 	exp      string
@@ -549,6 +551,15 @@ var c16Corpus = []string{
 	"[1, 2].map(v -> §accept§(v) + §a§).sum()",
 	"§replace§(§a§, §b§) + §combine§(3)",
 	"func h1(p) if p <= 0 then §get§(§a§) else h1(p - 1) + §put§(p); h1(2)",
+	// ... called with the argument count of the built-in METHOD of that name, which is not the closure's: the closure field is
+	// the callee in both spellings, so both fail alike (round-5 seed C16-15: the explicit spelling fell through to the method)
+	"try §put§(\"q\", 5).size() catch 0 - 1",
+	"try §list§().size() catch 0 - 1",
+	"try §replace§(v -> v).size() catch 0 - 1",
+	"try §combine§({a: 1}, (p, q) -> p).size() catch 0 - 1",
+	"try §get§(\"a\", 1) catch 0 - 1",
+	"[try §put§(\"q\", §a§) catch 0 - 1, try §list§() catch 0 - 2, §a§].string()",
+	"[1, 2].map(v -> try §put§(\"k\" + v, v).size() catch 0 - v).sum()",
 	// unknown attribute
 	"§nosuch§ + 1",
 	"[1].map(v -> v + §nosuch§)",
@@ -1101,7 +1112,10 @@ func c16Behaviour(env *c16Env, idx int, cs *c16Case) (v c16Verdict) {
 				viol("panic-escaped-eval", "a Go panic escaped Func.Eval", extra)
 				break
 			}
-			if fL != nil && oM == oE {
+			// a method-named attribute that is ABSENT from this argument map (even idx, see argMap): the literal spelling is then
+			// a working method call, the map-mode spelling a missing attribute; only the explicit member access is the reference
+			methodNamedAbsent := idx%2 == 0 && c16MethodNamedRe.MatchString(cs.marked)
+			if fL != nil && oM == oE && !methodNamedAbsent {
 				if oL := c16Eval(fL, arg); oL != oM && !(rep == 3 || rep == 4) {
 					extra["exp_literal"], extra["outcome_literal"] = cs.literal, oL
 					viol("literal-call-spelling-differs", "the literal spelling m.x(…) (a method call on m) and GenerateWithMap(exp, m) give different outcomes", extra)
